@@ -16,6 +16,8 @@ import Indi.Spec.Dev
 import Indi.Spec.Cli
 import Indi.Spec.Wait
 import Indi.Model.Send
+import Indi.Spec.Sys
+import Indi.Model.Sys
 
 open Indi Indi.Wire
 
@@ -469,6 +471,24 @@ def pCall (task : Bool) : P Dev.Call := do
   let o ← pValue; let n ← pValue; let sn ← pValue
   pure { handler := hid, kind := kind, old := o, new := n, seen := sn, task := task }
 
+def pSysOp : P Sys.Op := do
+  let t ← tok
+  match t with
+  | "d" => do let di ← pNat; let op ← pDevOp; pure (.driver di op)
+  | "cw" => do
+    let ci ← pNat; let dev ← pStr; let prop ← pStr
+    let ws ← pList (do let n ← pStr; let v ← pCVal; pure (n, v))
+    pure (.write ci dev prop ws)
+  | "hs" => do let ci ← pNat; let d ← pOpt; let n ← pOpt; pure (.handshake ci d n)
+  | _ => fail
+
+def encWorld (w : Sys.World) : String :=
+  String.intercalate " ; " (w.devs.map encDevState) ++ " || " ++ String.intercalate " ; " (w.peers.map fun p => encMirror p.mirror)
+
+def sysRun : Sys.World → List Sys.Op → List String
+  | _, [] => []
+  | w, op :: rest => let w' := Sys.step Generated.registry w op; encWorld w' :: sysRun w' rest
+
 def handle (ts : List String) : String :=
   match ts with
   | "spec" :: "c07" :: rest =>
@@ -488,6 +508,25 @@ def handle (ts : List String) : String :=
       match Spec.Dev.c14Holds d a w v r cs tsk n d' with
       | some b => encBool b
       | none => "na"
+    | none => "bad-op"
+  | "spec" :: "c01" :: rest =>
+    match runP (do let b ← pBool; let d ← pDevice; let m ← pMirror; pure (b, d, m)) rest with
+    | some (b, d, m) => encBool (Spec.Sys.synced b d m)
+    | none => "bad-op"
+  | "spec" :: "c06" :: rest =>
+    match runP (do
+        let b ← pDevice; let dn ← pStr; let pr ← pStr
+        let w ← pList (do let n ← pStr; let v ← pValue; pure (n, v))
+        let a ← pDevice
+        pure (b, dn, pr, w, a)) rest with
+    | some (b, dn, pr, w, a) => encBool (Spec.Sys.c06Holds b dn pr w a)
+    | none => "bad-op"
+  | "spec" :: "c08" :: rest =>
+    match runP (do
+        let p ← pPolicy; let d ← pDevice; let g ← pNat; let v ← pNat; let e ← pNat
+        let b ← pMirror; let a ← pMirror
+        pure (p, d, g, v, e, b, a)) rest with
+    | some (p, d, g, v, e, b, a) => encBool (Spec.Sys.c08Holds (Spec.Rtr.allows p true) d g v e b a)
     | none => "bad-op"
   | "spec" :: "istrue" :: rest =>
     match runP pBool rest with
@@ -551,6 +590,33 @@ def handle (ts : List String) : String :=
     | some (ops, b, m, o) =>
       let cbs := (ops.foldl (fun st op => (Cli.step st op).state) ({} : Cli.State)).cbs
       (match Spec.Cli.c16Holds cbs b m o with | some x => encBool x | none => "na")
+    | none => "bad-op"
+  | "sys" :: "start" :: rest =>
+    match runP (do
+        let ds ← pList pDevice
+        let ks ← pList (do let b ← pBool; let i ← pBool; let a ← pBool; pure (b, i, a))
+        let ms ← pList pMirror
+        pure (ds, ks, ms)) rest with
+    | some (ds, ks, ms) =>
+      let w := Sys.start Generated.registry ds ks
+      if w.peers.map (·.mirror) == ms then "ok" else "differs: model " ++ String.intercalate " ; " (w.peers.map fun p => encMirror p.mirror)
+    | none => "bad-op"
+  | "sys" :: "next" :: rest =>
+    match runP (do
+        let ds ← pList pDevice
+        let ps ← pList (do let b ← pBool; let i ← pBool; let a ← pBool; let m ← pMirror; pure ({ blobs := b, inproc := i, also := a, mirror := m } : Sys.Peer))
+        let op ← pSysOp
+        let ds' ← pList pDevice
+        let ms' ← pList pMirror
+        pure (ds, ps, op, ds', ms')) rest with
+    | some (ds, ps, op, ds', ms') =>
+      let w : Sys.World := { devs := ds, peers := ps }
+      let w' : Sys.World := { devs := ds', peers := (ps.zip ms').map fun (p, m) => { p with mirror := m } }
+      if ps.length != ms'.length then "bad-op" else
+      if Sys.nextOk Generated.registry w op w' then "ok" else
+      let (dsm, msgs) := Sys.react Generated.registry w op
+      if !Sys.sameDevs dsm ds' then "devices differ: model " ++ String.intercalate " ; " (dsm.map encDevState)
+      else "mirrors differ: model (in-order arrival) " ++ String.intercalate " ; " (ps.map fun p => encMirror (Sys.deliver Generated.registry p msgs).mirror)
     | none => "bad-op"
   | "dev" :: "run" :: rest =>
     match runP (do let d ← pDevice; let ops ← pList pDevOp; pure (d, ops)) rest with
